@@ -724,6 +724,45 @@ def generate(vc_path, out_dir, canary=False, lenient=False):
         else:
             raise ContractSyntax("unknown directive @%s at line %d" % (d.name, d.lineno))
         i += 1
+    # AUTOCONST: a verified body that mentions a SCREAMING_CASE constant which the contract file does not list (a
+    # constant introduced or renamed by a change to the source) gets that `const` item extracted from the source files
+    # of the unit (or preflate_constants.rs), to a fixpoint. On a tree where every constant is listed this does nothing.
+    if opened:
+        try:
+            for _round in range(4):
+                cur, _lm = out.render()
+                code = strip_ghost(cur)
+                defined = set(re.findall(r"\b(?:const|static)\s+([A-Z][A-Z0-9_]*)\b", cur))
+                wanted = set()
+                for nm, src in erasure:
+                    if src:
+                        wanted |= set(re.findall(r"\b[A-Z][A-Z0-9_]{2,}\b", src))
+                for nm in list(defined):
+                    pass
+                missing = [w for w in sorted(wanted) if w not in defined and not re.search(r"\b(?:struct|enum|type|trait)\s+%s\b" % w, cur)]
+                added = 0
+                for w in missing:
+                    rels = [r for r in list(files.keys()) if not r.startswith("dep:")]
+                    if "src/preflate_constants.rs" not in rels:
+                        rels.append("src/preflate_constants.rs")
+                    for r in rels:
+                        try:
+                            f2 = sf(r)
+                        except Exception:
+                            continue
+                        cs = [it for it in f2.items if it.kind == "const" and it.name == w and not it.is_test()]
+                        if len(cs) == 1:
+                            body = cs[0].text
+                            out.add("\n" + body + "\n", section="item", item=w, src="%s:%d" % (r, f2.src.count("\n", 0, cs[0].start) + 1))
+                            erasure.append(("item " + w, body))
+                            rewrites_log.append({"id": "AUTOCONST", "fn": "const " + w,
+                                                 "why": "constant referenced by a verified body but not listed in the contract file: extracted from %s" % r})
+                            added += 1
+                            break
+                if not added:
+                    break
+        except LostAnchor:
+            pass
     if opened:
         out.add("\n} // verus!\n")
     out.add("fn main() {}\n")
